@@ -13,7 +13,8 @@ import Pog.Model.Basic
                                            the written one only in ASCII case are deleted, then `d[k] = v`)
   request_args (what a plug-in sees)       `RequestArgs` (absent key = `none`)
   BaseAuth.authenticate_request            `authenticate` (`ValueError` = `Except.error`)
-  HttpxTransport._prepare_headers          `prepareHeaders`
+  HttpxTransport._prepare_headers          `prepareRequest` (returned headers + the params / cookies it stores into kwargs);
+                                           `prepareHeaders` = its return value for a caller without params / cookies
   kwargs of `self._client.request(...)`    `sendArgs`
   state of the plug-ins after the call     `pluginAfter` (only `OAuth2Auth.access_token` is mutable)
 
@@ -184,6 +185,33 @@ def contribAll : List Plugin → Dict
   | p :: ps => contrib p ++ contribAll ps
 end
 
+mutual
+/-- The query-parameter writes `(name, value)` a plug-in performs, in order (specification view). -/
+def contribQ : Plugin → Dict
+  | .apiKey key loc name => if loc = locQuery then [(name, key)] else []
+  | .composite ps => contribQAll ps
+  | _ => []
+def contribQAll : List Plugin → Dict
+  | [] => []
+  | p :: ps => contribQ p ++ contribQAll ps
+end
+
+mutual
+/-- The cookie writes `(name, value)` a plug-in performs, in order (specification view). -/
+def contribC : Plugin → Dict
+  | .apiKey key loc name => if loc = locCookie then [(name, key)] else []
+  | .composite ps => contribCAll ps
+  | _ => []
+def contribCAll : List Plugin → Dict
+  | [] => []
+  | p :: ps => contribC p ++ contribCAll ps
+end
+
+/-- A `params` / `cookies` argument after a sequence of plug-in writes: untouched (even absent) without a
+    write, otherwise a dict: the caller's entries updated — Python `dict` assignment, exact keys — in order. -/
+def writeInto (base : Option Dict) (ws : Dict) : Option Dict :=
+  if ws.isEmpty then base else some (dictUpdate (base.getD []) ws)
+
 /-! ### the transport -/
 
 /-- Steps 1 and 2 of `_prepare_headers`: `prepared = {}`, `if self._default_headers: merge_headers(prepared, …)`
@@ -198,23 +226,48 @@ def baseHeaders (defaults : Option Dict) (reqHeaders : Option Dict) : Dict :=
   | some r => dictUpdateCI h1 r
   | none => h1
 
-/-- `HttpxTransport._prepare_headers`. -/
-def prepareHeaders (defaults : Option Dict) (reqHeaders : Option Dict) (auth : Option Plugin)
-    (bearerToken : Option Str) : Except Err Dict :=
+/-- What `_prepare_headers(kwargs)` leaves behind: the headers it returns and `kwargs["params"]`,
+    `kwargs["cookies"]` after the call (`none` = absent or `None`). -/
+structure Prepared where
+  headers : Dict
+  params : Option Dict
+  cookies : Option Dict
+deriving DecidableEq, Repr
+
+/-- `HttpxTransport._prepare_headers(kwargs)`; `params` / `cookies` are the caller's keyword arguments
+    (`none` covers absent and `None`: `kwargs.get(key) is not None` fails for both). -/
+def prepareRequest (defaults : Option Dict) (reqHeaders params cookies : Option Dict) (auth : Option Plugin)
+    (bearerToken : Option Str) : Except Err Prepared :=
   let h2 := baseHeaders defaults reqHeaders
   match auth with
   | some p =>
-    -- the plug-in gets `{"headers": prepared.copy()}` and nothing else …
-    match authenticate p { headers := some h2 } with
-    -- … and only `authenticated_args["headers"]` is taken back
-    | .ok r => match r.headers with
-      | some h => .ok h
-      | none => .ok h2
+    -- the plug-in gets `{"headers": prepared.copy()}` plus the caller's `params` / `cookies` unless they are `None` …
+    match authenticate p { headers := some h2, params := params, cookies := cookies } with
+    | .ok r => .ok {
+        -- … `authenticated_args["headers"]` is taken back when present,
+        headers := match r.headers with
+          | some h => h
+          | none => h2
+        -- … and `if key in authenticated_args: kwargs[key] = authenticated_args[key]` for params and cookies
+        params := match r.params with
+          | some q => some q
+          | none => params
+        cookies := match r.cookies with
+          | some q => some q
+          | none => cookies }
     | .error e => .error e
   | none =>
     match bearerToken with
-    | some t => .ok (dictSetCI h2 hAuthorization (bearerValue t))
-    | none => .ok h2
+    | some t => .ok { headers := dictSetCI h2 hAuthorization (bearerValue t), params := params, cookies := cookies }
+    | none => .ok { headers := h2, params := params, cookies := cookies }
+
+/-- The return value of `_prepare_headers` for a caller that passes neither params nor cookies.  (It is the
+    return value for EVERY caller: `Pog.prepareRequest_headers`.) -/
+def prepareHeaders (defaults : Option Dict) (reqHeaders : Option Dict) (auth : Option Plugin)
+    (bearerToken : Option Str) : Except Err Dict :=
+  match prepareRequest defaults reqHeaders none none auth bearerToken with
+  | .ok r => .ok r.headers
+  | .error e => .error e
 
 /-- Constructor arguments of `HttpxTransport` that matter here. -/
 structure Transport where
@@ -237,11 +290,11 @@ structure SendArgs (β : Type) where
   cookies : Option Dict
   other : β
 
-/-- `request_args = {k: v for k, v in kwargs.items() if k != "headers"};
-    request_args["headers"] = await self._prepare_headers(kwargs)`. -/
+/-- `prepared_headers = await self._prepare_headers(kwargs)` (which may store params / cookies into `kwargs`);
+    `request_args = {k: v for k, v in kwargs.items() if k != "headers"}; request_args["headers"] = prepared_headers`. -/
 def sendArgs {β : Type} (t : Transport) (c : CallerArgs β) : Except Err (SendArgs β) :=
-  match prepareHeaders t.defaultHeaders c.headers t.auth t.bearerToken with
-  | .ok h => .ok { headers := h, params := c.params, cookies := c.cookies, other := c.other }
+  match prepareRequest t.defaultHeaders c.headers c.params c.cookies t.auth t.bearerToken with
+  | .ok r => .ok { headers := r.headers, params := r.params, cookies := r.cookies, other := c.other }
   | .error e => .error e
 
 /-- The transport after one `request` call (plug-in state). -/
@@ -271,6 +324,16 @@ def authWrites (auth : Option Plugin) (bearerToken : Option Str) : Dict :=
   | none => match bearerToken with
     | some t => [(hAuthorization, bearerValue t)]
     | none => []
+
+/-- The query-parameter writes of the configured plug-in (`bearer_token` writes none). -/
+def queryWrites : Option Plugin → Dict
+  | some p => contribQ p
+  | none => []
+
+/-- The cookie writes of the configured plug-in. -/
+def cookieWrites : Option Plugin → Dict
+  | some p => contribC p
+  | none => []
 
 /-- All header writes of one request, in the order they happen. -/
 def allWrites (defaults reqHeaders : Option Dict) (auth : Option Plugin) (bearerToken : Option Str) : Dict :=
